@@ -443,15 +443,57 @@ func runC20(c *Ctx) {
 	// only on the edge on which the name is absent from the map or on which the existing entry's
 	// running flag - that flag itself, not a weaker combination - was read as false. Otherwise the stale
 	// cleanup deletes the new, running worker: it is never cancelled and never waited for at shutdown.
+	isWorkersIndex := func(e ast.Expr) bool {
+		ix, ok := ast.Unparen(e).(*ast.IndexExpr)
+		return ok && strings.HasSuffix(rawKey(ix.X), ".workers")
+	}
+	// identityCheckedCleanup: the clean-up removes an entry only after it found, under the lock, that
+	// the name still maps to the very worker that finished (an identity comparison of the map entry
+	// with a parameter of the clean-up)
+	identityCheckedCleanup := func() bool {
+		cfd := p.FuncDecl(pkg, "OrderedDaemon", "cleanupWorker")
+		if cfd == nil || cfd.Body == nil {
+			return false
+		}
+		cf := newFuncCFG(p, info, cfd.Body, pkg+".OrderedDaemon.cleanupWorker")
+		params := map[types.Object]bool{}
+		for _, fl := range cfd.Type.Params.List {
+			for _, nm := range fl.Names {
+				if _, isPtr := info.TypeOf(nm).Underlying().(*types.Pointer); isPtr {
+					params[info.Defs[nm]] = true
+				}
+			}
+		}
+		var own []Edge
+		cf.forEachEdgeFact(func(e Edge, b *cfg.Block, ft fact) {
+			be, ok := ast.Unparen(ft.Atom).(*ast.BinaryExpr)
+			if !ok || (be.Op != token.EQL && be.Op != token.NEQ) {
+				return
+			}
+			same := (be.Op == token.EQL) == ft.Pol
+			for _, pair := range [][2]ast.Expr{{be.X, be.Y}, {be.Y, be.X}} {
+				if isWorkersIndex(pair[0]) && params[objOfIdent(info, pair[1])] && same {
+					own = append(own, e)
+				}
+			}
+		})
+		dels := cf.Find(func(n ast.Node) bool {
+			c, ok := n.(*ast.CallExpr)
+			return ok && rawKey(c.Fun) == "delete" && len(c.Args) == 2 && strings.HasSuffix(rawKey(c.Args[0]), ".workers")
+		})
+		okOwn := len(own) > 0 && len(dels) > 0
+		for _, dp := range dels {
+			if _, only := cf.OnlyThroughEdges(dp, own); !only {
+				okOwn = false
+			}
+		}
+		return okOwn
+	}
 	if fd := p.FuncDecl(pkg, "OrderedDaemon", "BackgroundWorker"); fd == nil {
 		r.Unresolved("reg/replaces-only-cleaned-up-worker", pkg+".OrderedDaemon.BackgroundWorker", "method not found")
 	} else {
 		key := pkg + ".OrderedDaemon.BackgroundWorker"
 		f := newFuncCFG(p, info, fd.Body, key)
-		isWorkersIndex := func(e ast.Expr) bool {
-			ix, ok := ast.Unparen(e).(*ast.IndexExpr)
-			return ok && strings.HasSuffix(rawKey(ix.X), ".workers")
-		}
 		stores := f.Find(func(n ast.Node) bool {
 			as, ok := n.(*ast.AssignStmt)
 			if !ok {
@@ -507,43 +549,9 @@ func runC20(c *Ctx) {
 			// found, under the lock, that the name still maps to the very worker that finished (an
 			// identity comparison of the map entry with a parameter of the clean-up)
 			if bad != "" {
-				if cfd := p.FuncDecl(pkg, "OrderedDaemon", "cleanupWorker"); cfd != nil && cfd.Body != nil {
-					cf := newFuncCFG(p, info, cfd.Body, pkg+".OrderedDaemon.cleanupWorker")
-					params := map[types.Object]bool{}
-					for _, fl := range cfd.Type.Params.List {
-						for _, nm := range fl.Names {
-							if _, isPtr := info.TypeOf(nm).Underlying().(*types.Pointer); isPtr {
-								params[info.Defs[nm]] = true
-							}
-						}
-					}
-					var own []Edge
-					cf.forEachEdgeFact(func(e Edge, b *cfg.Block, ft fact) {
-						be, ok := ast.Unparen(ft.Atom).(*ast.BinaryExpr)
-						if !ok || (be.Op != token.EQL && be.Op != token.NEQ) {
-							return
-						}
-						same := (be.Op == token.EQL) == ft.Pol
-						for _, pair := range [][2]ast.Expr{{be.X, be.Y}, {be.Y, be.X}} {
-							if isWorkersIndex(pair[0]) && params[objOfIdent(info, pair[1])] && same {
-								own = append(own, e)
-							}
-						}
-					})
-					dels := cf.Find(func(n ast.Node) bool {
-						c, ok := n.(*ast.CallExpr)
-						return ok && rawKey(c.Fun) == "delete" && len(c.Args) == 2 && strings.HasSuffix(rawKey(c.Args[0]), ".workers")
-					})
-					okOwn := len(own) > 0 && len(dels) > 0
-					for _, dp := range dels {
-						if _, only := cf.OnlyThroughEdges(dp, own); !only {
-							okOwn = false
-						}
-					}
-					if okOwn {
-						bad = ""
-						r.Pass("reg/replaces-only-cleaned-up-worker", key, p.posStr(fd.Pos()), "the clean-up removes the name only while it still maps to the worker that finished (identity test under the lock), so a replaced entry is never removed by a stale clean-up")
-					}
+				if identityCheckedCleanup() {
+					bad = ""
+					r.Pass("reg/replaces-only-cleaned-up-worker", key, p.posStr(fd.Pos()), "the clean-up removes the name only while it still maps to the worker that finished (identity test under the lock), so a replaced entry is never removed by a stale clean-up")
 				}
 				if bad != "" {
 					r.Fail("reg/replaces-only-cleaned-up-worker", key, p.posStr(fd.Pos()), bad, wit...)
@@ -655,6 +663,16 @@ func runC20(c *Ctx) {
 				names := []string{"worker function", "Done", "cleanupWorker", "running=false"}
 				bad := ""
 				for i := 0; i+1 < len(order); i++ {
+					if i == 2 && identityCheckedCleanup() {
+						// an identity-checked clean-up cannot remove a successor's entry: it may run
+						// after the running flag was cleared (both still follow Done)
+						for _, later := range []Point{clean, clr} {
+							if _, found := lf.PathFromEntryAvoiding(later, func(n ast.Node) bool { return n == lf.nodeAt(done) || containsNode(lf.nodeAt(done), n) }, nil); found {
+								bad = "cleanupWorker / running=false can be reached before Done"
+							}
+						}
+						continue
+					}
 					a := order[i]
 					if _, found := lf.PathFromEntryAvoiding(order[i+1], func(n ast.Node) bool { return n == lf.nodeAt(a) || containsNode(lf.nodeAt(a), n) }, nil); found {
 						bad = names[i+1] + " can be reached before " + names[i]
